@@ -158,6 +158,17 @@ func NewKey(f *bls.Fr) (*encryption.BLS0ChainScheme, error) {
 	return k, nil
 }
 
+// IDOfSecret is the node/client id of the key with the given secret scalar: the hash of the public key bytes, as
+// the repository derives it (client.SetPublicKey / encryption.VerifyPublicKeyClientID). Used by generators.
+func IDOfSecret(dec string) string {
+	f, ok := ParseFr(dec)
+	if !ok {
+		panic("bad scalar")
+	}
+	sk := skOf(f)
+	return encryption.Hash(sk.GetPublicKey().Serialize())
+}
+
 func (w *World) sig(s string) (*bls.Sign, bool) {
 	i, err := strconv.Atoi(s)
 	if err != nil || i < 0 || i >= len(w.Sigs) {
@@ -200,6 +211,15 @@ func (w *World) Step(ws []string) (out string, handled bool) {
 			return bad()
 		}
 		w.Msgs[ws[1]] = MsgBytes(ws[1])
+		return "ok", true
+	case ws[0] == "rawmsg" && len(ws) == 3:
+		// a message that is signed as the literal string (the VRF message of a round)
+		if _, ok := ParseFr(ws[2]); !ok {
+			return bad()
+		}
+		if _, have := w.Msgs[ws[1]]; !have {
+			w.Msgs[ws[1]] = []byte(ws[1])
+		}
 		return "ok", true
 	case ws[0] == "key" && len(ws) == 3:
 		f, ok := ParseFr(ws[2])
@@ -470,6 +490,27 @@ func (w *World) Step(ws []string) (out string, handled bool) {
 		}
 		if err := p.AggregatePublicKeyShares(mpks); err != nil {
 			return "err", true
+		}
+		return "ok", true
+	case ws[0] == "rundkg" && len(ws) == 1:
+		mpks := map[zbls.PartyID][]zbls.PublicKey{}
+		for _, q := range w.Parties {
+			mpks[q.ID] = q.GetMPKs()
+		}
+		for _, pi := range w.Parties {
+			for _, pj := range w.Parties {
+				s, err := pj.ComputeDKGKeyShare(pi.ID)
+				if err != nil {
+					return "err", true
+				}
+				if err := pi.AddSecretShare(pj.ID, s.GetHexString(), false); err != nil {
+					return "err", true
+				}
+			}
+			pi.AggregateSecretKeyShares()
+			if err := pi.AggregatePublicKeyShares(mpks); err != nil {
+				return "err", true
+			}
 		}
 		return "ok", true
 	case ws[0] == "gpk" && len(ws) == 3:
